@@ -129,13 +129,22 @@ def seq_behaviour(cls, text):
     # out-of-range code assignment must not silently alias
     n = len(s.get_alphabet())
     for bad in (n, 256 + 1, 259):
-        t = cls(text)
-        try:
-            t.code = np.array([bad])
-            dec = str(t)
-            return f"code = [{bad}] accepted and decoded as {dec!r} (alphabet has {n} symbols)"
-        except (seq.AlphabetError, ValueError, OverflowError, IndexError):
-            pass
+        for dt in (np.int64, np.int32, np.int16, np.uint16, np.uint32, np.uint64):
+            # (codes of a sequence over a larger alphabet are uint16 / uint32 arrays: every integer dtype counts)
+            t = cls(text)
+            try:
+                t.code = np.array([bad, 0][: 1 + len(text) % 2], dtype=dt)
+                dec = str(t)
+                return f"code = np.array([{bad}, ...], dtype={np.dtype(dt).name}) accepted and decoded as {dec!r} (alphabet has {n} symbols)"
+            except (seq.AlphabetError, ValueError, OverflowError, IndexError):
+                pass
+    # ... and codes inside the range are taken from every integer dtype
+    if n > 1:
+        for dt in (np.int64, np.uint8, np.uint16, np.uint32, np.uint64, np.int8):
+            t = cls(text)
+            t.code = np.array([n - 1, 0, 1], dtype=dt)
+            if [int(c) for c in t.code] != [n - 1, 0, 1] or list(t.symbols) != [s.get_alphabet().decode(c) for c in (n - 1, 0, 1)]:
+                return f"code = np.array([{n - 1}, 0, 1], dtype={np.dtype(dt).name}) gives the codes {t.code.tolist()}"
     return None
 
 
